@@ -37,7 +37,15 @@ def one(name):
     for rel, hunks in files.items():
         res = apply_hunks(BASE_RAW.read_text(rel), hunks)
         if res is None:
-            return name, None
+            mp = os.path.join(d, "meta.json")
+            if os.path.exists(mp):
+                mm = json.load(open(mp))
+                if mm.get("status") != "stale":
+                    mm["status_before"] = mm.get("status")
+                    mm["status"] = "stale"
+                    mm["stale_reason"] = f"no longer applies to {rel}"
+                    json.dump(mm, open(mp, "w"), indent=1, sort_keys=True)
+            return name, "stale"
         ov[rel] = res
     raw = fired(Model(root=BASE_RAW.root, overrides=ov, reuse=BASE_RAW, heal=False))
     m = Model(root=BASE.root, overrides=ov, reuse=BASE)
